@@ -55,7 +55,10 @@ impl RunSpec {
                 if form == 1 { range.push(format!("--start={}", s)) } else { range.extend(["-s".to_string(), num(s)]) }
             }
             let coin: Vec<String> = if form == 1 { vec![format!("--coin={}", self.coin)] } else { vec!["-c".into(), self.coin.clone()] };
-            let dir: Vec<String> = if form == 1 { vec![format!("--blockchain-dir={}", data.display())] } else { vec!["-d".into(), data.display().to_string()] };
+            // form 5: the defaults are left to the program - no -d (the runner points $HOME at a home directory whose default
+            // folder for the coin is the data directory) and no -c for bitcoin
+            let coin: Vec<String> = if form == 5 && self.coin == "bitcoin" { vec![] } else { coin };
+            let dir: Vec<String> = if form == 5 { vec![] } else if form == 1 { vec![format!("--blockchain-dir={}", data.display())] } else { vec!["-d".into(), data.display().to_string()] };
             let mut a: Vec<String> = vec![];
             a.extend(range);
             a.extend(dir);
@@ -317,8 +320,46 @@ pub fn path_form(spec: &RunSpec, data: &Path, dump: &Path) -> (Option<PathBuf>, 
     }
 }
 
+pub static DEV_RUNS: std::sync::atomic::AtomicU64 = std::sync::atomic::AtomicU64::new(0);
+pub static RELEASE_RUNS: std::sync::atomic::AtomicU64 = std::sync::atomic::AtomicU64::new(0);
+
+/// Which build of the subject executes this run. The build profile is a dimension of every E1 enumeration: users run the
+/// release profile (no overflow checks, no debug assertions, optimised), the repository's tests run the dev profile. When a
+/// release binary is available (RBP_BIN_RELEASE) one run in four goes to it, chosen by a hash of the run's options and of the
+/// data directory's file list - a function of the case, so a replay takes the same binary. `VERIF_PROFILE=dev|release` in the
+/// spec's environment pins the choice; runs under the fault-injection shim stay on the dev binary (their intercepted call
+/// sequences are compared with a recorded fault-free sequence of that binary).
+fn pick_binary(bin: &Path, data: &Path, spec: &RunSpec) -> PathBuf {
+    let release = match std::env::var("RBP_BIN_RELEASE") {
+        Ok(p) if !p.is_empty() && Path::new(&p).exists() => PathBuf::from(p),
+        _ => return bin.to_path_buf(),
+    };
+    let pinned = spec.env.iter().find(|(k, _)| k == "VERIF_PROFILE").map(|(_, v)| v.as_str());
+    let use_release = match pinned {
+        Some("release") => true,
+        Some(_) => false,
+        None => {
+            if bin != subject_bin() || spec.env.iter().any(|(k, _)| k.starts_with("FAULTFS_")) {
+                false
+            } else {
+                let mut listing: Vec<(String, u64)> = fs::read_dir(data).map(|rd| rd.flatten().map(|e| (e.file_name().to_string_lossy().into_owned(), e.metadata().map(|m| m.len()).unwrap_or(0))).collect()).unwrap_or_default();
+                listing.sort();
+                let key = format!("{}{:?}", spec.describe(), listing);
+                crate::hash::sha256(key.as_bytes())[0] % 4 == 0
+            }
+        }
+    };
+    if use_release {
+        RELEASE_RUNS.fetch_add(1, std::sync::atomic::Ordering::Relaxed);
+        release
+    } else {
+        DEV_RUNS.fetch_add(1, std::sync::atomic::Ordering::Relaxed);
+        bin.to_path_buf()
+    }
+}
+
 pub fn run_bin(bin: &Path, data: &Path, dump: &Path, spec: &RunSpec) -> RunResult {
-    let mut cmd = Command::new(bin);
+    let mut cmd = Command::new(pick_binary(bin, data, spec));
     let (cwd, data_arg, dump_arg) = path_form(spec, data, dump);
     cmd.args(spec.argv_os(&data_arg, &dump_arg));
     if let Some(c) = cwd {
@@ -329,6 +370,25 @@ pub fn run_bin(bin: &Path, data: &Path, dump: &Path, spec: &RunSpec) -> RunResul
         cmd.env("RAYON_NUM_THREADS", spec.threads.to_string());
     }
     cmd.env("HOME", data);
+    if spec.env.iter().any(|(k, v)| k == "VERIF_ARGV_FORM" && v == "5") {
+        // the data directory is reached through the coin's default folder below $HOME, as when -d is not given
+        let folder = match spec.coin.as_str() {
+            "bitcoin" => ".bitcoin/blocks",
+            "testnet3" => ".bitcoin/testnet3",
+            "namecoin" => ".namecoin",
+            "litecoin" => ".litecoin/blocks",
+            "dogecoin" => ".dogecoin/blocks",
+            "myriadcoin" => ".myriadcoin/blocks",
+            "unobtanium" => ".unobtanium/blocks",
+            _ => ".notecoin/blocks",
+        };
+        let home = data.parent().unwrap_or(Path::new("/")).join(format!("home-{}", spec.coin));
+        let link = home.join(folder);
+        let _ = fs::create_dir_all(link.parent().unwrap_or(&home));
+        let _ = fs::remove_file(&link);
+        let _ = std::os::unix::fs::symlink(data, &link);
+        cmd.env("HOME", &home);
+    }
     cmd.env("RUST_BACKTRACE", "0");
     // determinism shim (see faultfs/faultfs.c): fixed getrandom stream => fixed HashMap order, no read-sampling random walk
     if let Ok(shim) = std::env::var("VERIF_SHIM") {
